@@ -247,7 +247,7 @@ func (ex *Exec) writeTo(st *State, w Val, data *SliceV, pos string) []callRes {
 		n := badSt.freshInt("n", 64, true)
 		_, hi := badSt.Range(data.Len)
 		badSt.refineSym(n.T.Syms[0], 0, hi)
-		badSt.Events = append(badSt.Events, Event{Kind: "sim:write-failed", Pos: pos})
+		badSt.Events = append(badSt.Events, Event{Kind: "sim:write-failed", Pos: pos, Args: []Val{n}})
 		return []callRes{
 			{st: okSt, ret: &TupleV{Vs: []Val{data.Len, nilErr()}}},
 			{st: badSt, ret: &TupleV{Vs: []Val{n, &IfaceV{Unk: true, NonNil: true}}}},
